@@ -305,6 +305,7 @@ func runServer(in input) lib.Case {
 		return "ok"
 	}
 	timerHeld := false
+	closeTimedOut := false // the first Close already missed its deadline once
 	var scenarioErr string
 	for i, m := range sv.Script {
 		switch m.Op {
@@ -322,7 +323,7 @@ func runServer(in input) lib.Case {
 			timerGate.Release()
 			timerHeld = false
 			if firstClose != nil {
-				waitCh(firstClose.done, 3*time.Second)
+				closeTimedOut = !waitCh(firstClose.done, 3*time.Second)
 			}
 		case "close":
 			if firstClose != nil {
@@ -350,7 +351,9 @@ func runServer(in input) lib.Case {
 					scenarioErr = fmt.Sprintf("macro %d: Close never reached the tree store", i)
 				}
 			} else {
-				if waitCh(firstClose.done, 3*time.Second) && !sv.Concurrent {
+				ok := waitCh(firstClose.done, 3*time.Second)
+				closeTimedOut = !ok
+				if ok && !sv.Concurrent {
 					for k := 1; k < sv.Closes; k++ {
 						x := startOp("close-again", doClose)
 						waitCh(x.done, 3*time.Second)
@@ -371,11 +374,21 @@ func runServer(in input) lib.Case {
 			break
 		}
 	}
+	short := 50 * time.Millisecond
 	if firstClose != nil {
-		o.Returned = waitCh(firstClose.done, 3*time.Second)
+		d := 3 * time.Second
+		if closeTimedOut {
+			d = short
+		}
+		o.Returned = waitCh(firstClose.done, d)
 	}
 	for _, x := range ops {
-		if waitCh(x.done, 3*time.Second) {
+		d := 3 * time.Second
+		if x == firstClose || !o.Returned {
+			// already waited for / blocked behind a Close that does not return
+			d = short
+		}
+		if waitCh(x.done, d) {
 			o.Ops = append(o.Ops, x.name+":"+x.res)
 			if strings.HasPrefix(x.name, "close") {
 				o.CloseErrs = append(o.CloseErrs, x.res)
